@@ -252,11 +252,20 @@ let model_line line =
     let counted () = let k = next () in List.init k (fun _ -> next ()) in
     let ptr = next () <> 0 in
     let nacts = next () in
+    let act_params : (int, (nat * bool) list * int) Hashtbl.t = Hashtbl.create 8 in
     let acts = List.init nacts (fun _ ->
         let id = next () in let kind = next () in let karg = next () in let typ = next () in
         let p = next () <> 0 in let fs = next () <> 0 in let fl = next () <> 0 in
+        let extras = counted () in let fpos = next () in
+        (* the function's parameters; the one that stands for the field is the model's field_param *)
+        let params = List.concat (List.init (List.length extras + 1) (fun i ->
+            (if i = fpos then [(n typ, p)] else []) @
+            (if i < List.length extras then [(n (List.nth extras i), false)] else []))) in
+        let (idx, p') = (match field_param (n typ) params (n 0) with
+            | Some (k, q) -> (int_of_nat k, q) | None -> (0, p)) in
+        Hashtbl.replace act_params id (params, idx);
         { a_id = n id; a_kind = (match kind with 0 -> AByTag (n karg) | 1 -> AByName (n karg) | _ -> AByType);
-          a_type = n typ; a_ptr = p; a_fillSet = fs; a_fill = fl }) in
+          a_type = n typ; a_ptr = p'; a_fillSet = fs; a_fill = fl }) in
     let tid = ref 1000 in
     let rec shape () =
       if next () = 0 then FLeaf (n (next ()))
@@ -293,10 +302,13 @@ let model_line line =
                | FLeaf t -> VL (int_of_nat t, 10, j)
                | st -> whole j st)) plan.fp_inputs in
            let tree = fill plan (zero model) vals in
-           let log = List.map (fun ((aid, path), _) ->
-               (match vget path tree with
-                | Some (VL x) -> Printf.sprintf "A%d(%s)" (int_of_nat aid) (show x)
-                | _ -> Printf.sprintf "A%d(?)" (int_of_nat aid))) plan.fp_acts in
+           let log = List.map (fun ((aid, path), addr) ->
+               let (params, idx) = Hashtbl.find act_params (int_of_nat aid) in
+               let fieldv = (match vget path tree with
+                   | Some (VL x) -> (if addr then "&" else "") ^ show x
+                   | _ -> "?") in
+               let args = List.mapi (fun i (t, _) -> if i = idx then fieldv else show (int_of_nat t, 10, j)) params in
+               Printf.sprintf "A%d(%s)" (int_of_nat aid) (String.concat "," args)) plan.fp_acts in
            "LOG " ^ String.concat " " log ^ " ; V " ^ String.concat " " (List.map show (leaves tree))) in
        "FILL ok ; " ^ String.concat " ; " out)
   | "N" :: _ ->
